@@ -1,6 +1,7 @@
 (* C06 -- a crop attached to a Runner, Harvester or Sampler reaps what a direct run gives. *)
 From XV Require Import Prelude Grid Perm Runner Batch Crop Label Farmer GenFarmer BridgeFarmer
      Names Harvest GridProofs PermProofs RunnerProofs BatchProofs AssocProofs CropProofs ReapProofs HarvestProofs.
+From XV Require CrashFS GenCrash BridgeCrash.
 Open Scope Z_scope.
 
 (* the labelled-output description reaching the Dataset / DataFrame builder through a crop
@@ -68,6 +69,14 @@ Proof.
     destruct d as [[|]|]; try discriminate. reflexivity.
 Qed.
 
+(* every sow -- also a re-sow into a folder left by an earlier sow -- writes the farmer's current function
+   anew (then the settings): Crop.prepare's steps, regenerated (GenCrash), are directories / function /
+   settings, none of them conditional on what the folder already holds; growing reads the function from there *)
+Theorem C06_function_written_on_every_sow :
+  CrashFS.cs_prepare GenCrash.gen_shape = [CrashFS.PDirs; CrashFS.PFunction; CrashFS.PSettings].
+Proof. rewrite BridgeCrash.bridge_shape. reflexivity. Qed.
+
+Print Assumptions C06_function_written_on_every_sow.
 Print Assumptions C06_default_policy_agrees.
 Print Assumptions C06_same_description.
 Print Assumptions C06_same_kwargs.
